@@ -875,3 +875,21 @@ def received_set_with_status(R, env, prog, rule, name):
                         okr = okr or okr1
                         R.ob(rule, name + ":" + site, okr1, "a batch is marked Received without received_native_unstaked := Some(..) in the same save", loc=o["loc"], fn=o["fn"])
     R.ob(rule, name, okr, "no site marks a batch Received together with the received amount", fn="staking")
+
+
+def zero_worlds(h, is_amount):
+    """(world where every `x.is_zero()` with is_amount(x) is false, world where it is true): a handler may
+    skip `total -= x` when x is zero (same stored value), so deltas are judged where x != 0 and only
+    required not to be wrong where x == 0"""
+    isz = lambda t: t[0] == "call" and t[1].endswith("::is_zero") and t[2] and is_amount(t[2][0])
+    nz = h.assume((None, lambda t: (False if isz(t) else None))).settle()
+    z = h.assume((None, lambda t: (True if isz(t) else None))).settle()
+    return nz, z
+
+
+def is_pending_batch(prog, t, crate="staking"):
+    """Ok payload of BATCHES.load(storage, PENDING_BATCH_ID.load()?)"""
+    if t[0] != "payload":
+        return False
+    c = unwrap_payload(t)
+    return c[0] == "call" and c[1] in ("cw_storage_plus::Map::load",) and ns_of(prog, c[2][0]) == "batches" and is_load(prog, c[2][2], "pending_batch_id", crate)
